@@ -316,15 +316,23 @@ def lines_end_in_trimesh(lines: np.ndarray, faces: np.ndarray) -> np.ndarray:
     area3 = v_dot_cross3d(c, a, d)
 
     eps = 1e-12
-    pass_through_boundary = (
-        (np.abs(area1) < eps) | (np.abs(area2) < eps) | (np.abs(area3) < eps)
-    )
-    # print('pass_through_boundary:')
-    # print(pass_through_boundary)
+    zero1 = np.abs(area1) < eps
+    zero2 = np.abs(area2) < eps
+    zero3 = np.abs(area3) < eps
 
     area1 = np.sign(area1)
     area2 = np.sign(area2)
     area3 = np.sign(area3)
+
+    # a vanishing area only says that the line meets the (infinite) straight line through
+    # an edge; it meets the edge itself only if the other two areas do not disagree in sign
+    pass_through_boundary = (
+        (zero1 & ((area2 == area3) | zero2 | zero3))
+        | (zero2 & ((area1 == area3) | zero1 | zero3))
+        | (zero3 & ((area1 == area2) | zero1 | zero2))
+    )
+    # print('pass_through_boundary:')
+    # print(pass_through_boundary)
     pass_through_inside = (area1 == area2) * (area2 == area3)
     # print('pass_through_inside:')
     # print(pass_through_inside)
